@@ -219,13 +219,13 @@ def c40(c):
     if c.violations:
         return c.finish(rule="stopped after the first failing stage")
     # 2. spec -> code: random operation sequences (4 keys, 3 passphrases, 3 armors)
-    beh = _simulate(c, "MCKeybase", "MCKeybase_sim.cfg", 25 if thorough else 5, 12, "TLC -simulate MCKeybase_sim.cfg")
+    beh = _simulate(c, "MCKeybase", "MCKeybase_sim.cfg", 15 if thorough else 5, 12, "TLC -simulate MCKeybase_sim.cfg")
     replay(beh, "TLC -simulate operation sequences of length 10", "mem,lazy" if thorough else "mem", 3)
     if c.violations:
         return c.finish(rule="stopped after the first failing stage")
 
     # 3. code -> spec: seeded driver, validated by TraceKeybase
-    ntr, steps = (160, 40) if thorough else (24, 25)
+    ntr, steps = (100, 40) if thorough else (24, 25)
     tr = os.path.join(c.scratch, "trace-keybase.ndjson")
     targs = ["trace-keybase", "-out", tr, "-n", ntr, "-steps", steps, "-variants", "mem,lazy"]
     rep = vf.run_harness(BIN, targs, env={"VERIF_SEED": c.seed}, timeout=5000)
@@ -251,7 +251,7 @@ def c40(c):
 
 
 QUICK_SAMPLE = 18
-THOROUGH_SAMPLE_T = 90
+THOROUGH_SAMPLE_T = 200
 
 
 def replay_generic(c, path):
